@@ -220,7 +220,18 @@ start:
 		if d.Tok == token.VAR {
 			for _, spec := range d.Specs {
 				if spec, ok := spec.(*ast.ValueSpec); ok {
-					b.add(spec)
+					if len(spec.Values) > 0 {
+						// `var a, b = x, y` is the definition `a, b := x, y`: one vertex kind for
+						// both spellings (the objects and their declared types are those the
+						// type checker recorded for the identifiers)
+						lhs := make([]ast.Expr, len(spec.Names))
+						for i, id := range spec.Names {
+							lhs[i] = id
+						}
+						b.add(&ast.AssignStmt{Lhs: lhs, TokPos: spec.Names[0].End(), Tok: token.DEFINE, Rhs: spec.Values})
+					} else {
+						b.add(spec)
+					}
 				}
 			}
 		}
